@@ -48,6 +48,31 @@ CHECKS["C10"] = {
     "technique": "static analysis: CFG dominance / must-flush path rules and flow-sensitive taint (manifest-filtered membership -> position) of the per-item seed",
 }
 
+CHECKS["C12"] = {
+    "level": "proof",
+    "text": ("Proof-level (exhaustive over a finite in-source space) for the G.711 clause: all 2 x 256 table entries equal the "
+             "ITU-T G.711 bit-field expansion. The decoder's remaining mechanism is decided structurally with exact closed "
+             "forms: each read is a whole number of frames (divisibility proof, counter-witness otherwise), samples converted "
+             "per read equal the frames counted, the np.empty buffer is returned only through a slice bounded by the fill "
+             "counter on every path, byte order / shape / expansion / warning / header-error clauses. Nothing numerical "
+             "remains beyond NumPy's frombuffer, so this is close to the whole property; it is still a statement about the "
+             "code's shape, not an execution over files."),
+    "design_ref": "DESIGN.md §3 C12",
+    "note": NOTE_COMMON + "file_.read(n) is assumed to return n bytes unless the stream ends (buffered binary streams).",
+    "technique": "static analysis: exhaustive literal-table comparison with ITU-T G.711, closed-form divisibility/byte-accounting with witnesses, reaching definitions on header parsing and the returned buffer",
+}
+CHECKS["C13"] = {
+    "level": "other",
+    "text": ("Decides the decoder's structure against the reference decoder it ports (shorten 2.0 / sph2pipe 2.5): NEP 50 "
+             "signedness discipline of the bit reader, exhaustive command and sample-type dispatch with error fall-through, "
+             "premature-end error not swallowed, DIFF0-3/QLPC stencils in normal form, running-mean read/update and C "
+             "division for versions 1 and 2, wrap / bit-shift fix-up / interleave applied to every block command. Does NOT "
+             "decide losslessness over all encoder outputs: that needs an encoder and execution."),
+    "design_ref": "DESIGN.md §3 C13",
+    "note": NOTE_COMMON + "The reference arithmetic is transcribed in pdsa/rules/c13.py (REF) from shorten_x.c.",
+    "technique": "static analysis: signedness typing, exhaustive dispatch tables, stencil / mean closed forms compared with the reference decoder, control-dependence of post-block steps",
+}
+
 _PENDING = "check not built yet in this session (static-analysis clauses planned in DESIGN.md §3)"
 NOT_APPLICABLE = {("C%02d" % i): _PENDING for i in range(1, 21) if ("C%02d" % i) not in CHECKS}
 
